@@ -8,22 +8,32 @@ A case is a strictly convex QP with a *planted* optimum, built as a real OpenMDA
 
 `phi_i` is the identity (affine row, may be declared `linear=True`) or the increasing cubic
 `t + t^3/64` (genuinely nonlinear for the optimizer, but its level sets are hyperplanes, so the
-feasible set is a polyhedron and the exact optimum is known).  The rows live in 1-3 array outputs
+feasible set is a polyhedron and the exact optimum is known).  The rows live in 1-2 array outputs
 of one harness component with analytic partials; constraints select elements with `indices`
 (+ `alias`), carry per-element bound patterns (scalar / array, +-INF_BOUND for "not set",
 non-uniform patterns), `scaler/adder` or `ref/ref0` (scalar / array), `units`; design variables
 carry bounds, scaling and units as well.  Every case is run under two different driver scalings.
 
-* direct oracle (no Lean): on `driver.result.success` (1) the model sits at `result.x` unscaled,
-  (2) every element of every constraint is within its bounds (1e-6, model units) according to
-  `Problem.get_val`, (3) the design is within 1e-4 of the exact optimum, which is certified in
-  exact `Fraction` arithmetic (KKT certificate check; active-set enumeration as cross-check),
-  (4) both scalings give the same design.  The scipy contract (its own constraint functions are
-  satisfied at `result.x`) is validated per run; a run where scipy breaks its contract is counted
-  but never reported against OpenMDAO.
-* correspondence: `scipy.optimize.minimize` as imported by `scipy_optimizer` is wrapped; the
-  `constraints` / `bounds` the real driver built are evaluated at probe designs and compared with
-  the records `OMV.C21` builds from the same bound patterns (Lean driver, exact rationals).
+`scipy.optimize.minimize` as imported by `openmdao.drivers.scipy_optimizer` is wrapped (`Capture`):
+the `constraints` / `bounds` the real driver built are kept and every callback call is logged.
+
+* direct oracle (no Lean): on `driver.result.success` (1) the model (`get_val`) sits at `result.x`
+  unscaled, (2) every element of every constraint is within its bounds (1e-6, model units)
+  according to `Problem.get_val`, (3) for SLSQP / trust-constr the design is within 1e-4 of the
+  exact optimum, certified in exact `Fraction` arithmetic (KKT certificate check; active-set
+  enumeration as cross-check on small affine cases) - for both driver scalings, which gives (4).
+  Third-party attribution is explicit and validated per run: a failure is only excused when the
+  callbacks were verifiably functions of their argument, the Jacobian callbacks agree with finite
+  differences, scipy's own records are satisfied at `result.x` and the true optimum is admissible
+  for the records scipy was given (then the optimizer itself stopped early).
+* correspondence (Lean driver, exact rationals): the records `OMV.C21` builds from the same bound
+  patterns (old-style dicts incl. the `dbl` flag, new-style objects, design-variable bounds) must
+  behave like the captured ones - values / slacks and Jacobian rows at `result.x`, at the planted
+  optimum and at two probe designs, against exact evaluation of the case; the callback state
+  machine must predict at which design every sampled callback answer was really computed, and
+  where the model is left.
+* tie: which variant of each of the seven modelled mechanisms /repo contains is probed on tiny
+  fixed problems (`detect_variant`) and handed to the Lean driver (`Variant`).
 """
 import contextlib
 import io
@@ -1348,7 +1358,7 @@ class C21(Property):
 
     # -- generator ----------------------------------------------------------------------------------
     def cases(self, rng, tier):
-        n = 64 if tier == 'quick' else 1400
+        n = 48 if tier == 'quick' else 4000
         for k in range(n):
             r = rng.random()
             opt = 'SLSQP' if r < 0.5 else ('COBYLA' if r < 0.75 else 'trust-constr')
@@ -1524,8 +1534,20 @@ class C21(Property):
                 if r.get('success') and r.get('contract', 0) > TOL_CONTRACT:
                     b.append('scipy-success-with-own-constraint-violated' +
                              ('' if not self.pure(r) else ':pure'))
-                if r.get('fd_consistent') is not None:
-                    b.append('nonoptimal-success:fd_consistent=%s' % r['fd_consistent'])
+                if r.get('success'):
+                    sc = case['scalings'][impl['runs'].index(r)]
+                    fails = self.run_checks(case, sc, r)
+                    if fails:
+                        b.append('success:%s:clause-%s-fails' % (case['opt'], fails[0]['clause']))
+                    elif not case.get('cert'):
+                        b.append('success:%s:feasible(no certificate)' % case['opt'])
+                    elif self.optimal(case, r):
+                        b.append('success:%s:feasible+optimal' % case['opt'])
+                    elif case['opt'] == 'COBYLA':
+                        b.append('success:COBYLA:feasible,optimality-not-demanded')
+                    else:
+                        b.append('success:%s:feasible,early-stop-of-scipy(callbacks+jacobians+posing '
+                                 'verified)' % case['opt'])
         kinds = set()
         for con in case['cons']:
             if con['equals'] is not None:
